@@ -137,6 +137,36 @@ def case_tools(ctx):
                 "want": expect.decode(), "status": st},
                 summary=f"apply_case with the model train_case just wrote does not restore the casing: {out2!r} instead of {expect!r} (keys incompatible)")
             return
+        # several sentences in one run, links in any order, one-word sentences: the keys looked up for a sentence may not
+        # depend on the sentence before it -- the run must equal the sentences processed one by one with the same model
+        sents = []
+        for _ in range(rng.randrange(2, 6)):
+            m = rng.choice([1, 1, 2, 3, len(src) - 1])
+            pos = [rng.randrange(1, len(src)) for _ in range(m)]
+            links = [(a, a) for a in range(m)]
+            rng.shuffle(links)
+            if rng.random() < 0.5:
+                links = links[:max(1, len(links) - 1)]          # unaligned tail
+            sents.append((" ".join(src[p_] for p_ in pos), " ".join(tgt[p_].lower() for p_ in pos), " ".join(f"{a}-{b}" for a, b in links)))
+
+        def run_apply(ss):
+            open(fa2, "wb").write("".join(f"{k} ||| {al}\n" for k, (_, _, al) in enumerate(ss)).encode())
+            open(fs, "wb").write("".join(x[0] + "\n" for x in ss).encode())
+            open(ft, "wb").write("".join(x[1] + "\n" for x in ss).encode())
+            return pvlib.run_tool([ctx.bin("apply_case"), fa2, fs, ft, fm], b"", env=pvlib.san_env())
+        st, together, err = run_apply(sents)
+        singly = b"".join(run_apply([x])[1] for x in sents)
+        ctx.count("apply_case.sentences", 1, [tuple(sents)])
+        if st != 0 or together != singly:
+            gl, wl = together.split(b"\n"), singly.split(b"\n")
+            k = next((i for i, (p_, q_) in enumerate(zip(gl, wl)) if p_ != q_), min(len(gl), len(wl)))
+            pvlib.report_violation(ctx, "apply_case-seq:" + "|".join(x[1] for x in sents)[:80], {
+                "argv": ["apply_case", "<align>", "<source>", "<target>", "<model from train_case>"], "model": out.decode(),
+                "files": {"align": [x[2] for x in sents], "source": [x[0] for x in sents], "target": [x[1] for x in sents]},
+                "together": together.decode(errors="replace"), "one_by_one": singly.decode(errors="replace"), "sentence": k, "status": st},
+                summary=f"apply_case: sentence {k} is recased as {gl[k] if k < len(gl) else None!r} after the sentences before it, but as "
+                        f"{wl[k] if k < len(wl) else None!r} on its own (the keys looked up depend on the previous sentence)")
+            return
 
 
 def replay(ctx, rp):
